@@ -52,6 +52,14 @@ def make_data(rng: random.Random) -> dict:
         "key": rng.choice(["name", "age", "missing", "first"]),
         "idx": rng.choice([0, 1, -1, 7]),
         "pname": rng.choice(PARTIAL_NAMES),
+        **({} if rng.random() < 0.5 else {
+            # render-context variables read by the Babel filters
+            "locale": rng.choice(["en_US", "de", "fr_CA", "ja"]),
+            "timezone": rng.choice(["UTC", "America/New_York", "Asia/Tokyo"]),
+            "input_timezone": rng.choice(["UTC", "Europe/Paris", "Australia/Sydney"]),
+            "currency_code": rng.choice(["USD", "EUR", "JPY"]),
+            "datetime_format": rng.choice(["short", "medium", "long", "yyyy.MM.dd HH:mm"]),
+        }),
     }
 
 
@@ -95,6 +103,10 @@ class ProgGen:
         ]
         if self.locals and r.random() < 0.3:
             return r.choice(self.locals)
+        if r.random() < 0.14:
+            return r.choice(["products[idx].title", "user[key]", "user.tags[n]", "h[key]", "products[n].tags[idx]",
+                             "nested[n][idx]", "h.list[n]", "products[user.tags.size].title", "user[h.b]",
+                             "products[products.size].title", "words[nums[1]]", "h[user.first]"])
         return r.choice(base)
 
     def literal(self) -> str:
@@ -127,6 +139,9 @@ class ProgGen:
     def typed_base(self) -> tuple[str, str]:
         r = self.rng
         c = r.random()
+        if c < 0.04:
+            return "D", r.choice(["'2024-01-15 10:30'", "'March 3 2021 23:59'", "'2001-02-03T04:05:06'", "'1999-12-31'",
+                                  "1700000000", "'1700000000'", "now", "'today'"])
         if c < 0.3:
             return "S", r.choice(self.S_PATHS) if r.random() < 0.8 else repr(r.choice(WORDS[:6])).replace('"', "'")
         if c < 0.5:
@@ -169,6 +184,10 @@ class ProgGen:
         r = self.rng
         if r.random() < 0.0008:
             return "nosuchfilter", "ANY"
+        if kind == "D":
+            return r.choice([("datetime", "S"), ("datetime: format: 'long'", "S"), ("datetime: format: 'short'", "S"),
+                             ("date: '%Y-%m-%d %H:%M'", "S"), ("date: '%A %d %B'", "S"), ("date: '%s'", "S"),
+                             ("datetime: format: 'EEEE, d MMMM y HH:mm zzz'", "S")])
         if kind == "S":
             return r.choice([
                 ("upcase", "S"), ("downcase", "S"), ("capitalize", "S"), (f"append: {self.s_arg()}", "S"),
@@ -382,6 +401,12 @@ class ProgGen:
 
     def n_for(self, depth):
         r = self.rng
+        if r.random() < 0.15:
+            inner = (self.tag("for j in " + r.choice(["user.tags", "nums", "(1..2)", "i.tags", "i.variants"]))
+                     + self.out("forloop.parentloop.index") + "." + self.out("forloop.index") + "/"
+                     + self.out(r.choice(["forloop.parentloop.length", "forloop.parentloop.first", "forloop.parentloop.name",
+                                          "forloop.parentloop.parentloop.index", "j"])) + " " + self.tag("endfor"))
+            return self.tag("for i in " + r.choice(["products", "(1..2)", "nested", "user.tags"])) + inner + self.tag("endfor")
         body = self.block(depth + 1)
         if r.random() < 0.3:
             body += self.tag("if " + self.cond()) + self.tag(r.choice(["break", "continue"])) + self.tag("endif")
@@ -440,8 +465,13 @@ class ProgGen:
 
     def n_with(self, depth):
         r = self.rng
-        args = ", ".join(f"{r.choice(['p', 'who', 'a', 'b'])}: {self.primitive()}" for _ in range(r.randint(1, 2)))
-        return self.tag("with " + args) + self.block(depth + 1, 2) + self.tag("endwith")
+        keys = r.sample(["p", "who", "a", "b", "s", "n"], r.randint(1, 3))
+        parts = []
+        for i, k in enumerate(keys):
+            v = r.choice(keys) if (r.random() < 0.4) else self.primitive()
+            parts.append(f"{k}: {v}")
+        body = self.block(depth + 1, 2) + "".join(self.out(k) for k in keys if r.random() < 0.7)
+        return self.tag("with " + ", ".join(parts)) + body + self.tag("endwith")
 
     def n_macro(self, depth):
         r = self.rng
@@ -475,6 +505,10 @@ class ProgGen:
                           self.rng.randint(1, 3))
         stem = name.rsplit("/", 1)[-1].split(".")[0]
         body += self.out(self.rng.choice([stem, stem + ".title", "who", "item.title", "user.name", "forloop.index"]))
+        if self.rng.random() < 0.08:
+            body = self.rng.choice(["{% break %}", "{% continue %}", "{% if n > 1 %}{% break %}{% endif %}",
+                                    "{% unless flag %}{% continue %}{% endunless %}"]) + body \
+                if self.rng.random() < 0.5 else body + self.rng.choice(["{% break %}after", "{% continue %}after"])
         if self.rng.random() < 0.04:
             body += self.rng.choice(["{% if %}", "{{ user.name | nosuchfilter }}", "{% endfor %}", "{{ 1 | divided_by: 0 }}",
                                      "{% render 'missing/deep.html' %}", "{% include 'missing/deep2' %}"])
